@@ -103,6 +103,14 @@ def _eval_case(L, case: dict, out: dict) -> dict:
                 f"operator applications {a} and {b_} ({ap['nodes'][b_]['k']}) are two constructor calls of the "
                 f"program but one node object: they cannot both appear in the model ({len(R.merged)} such pairs)",
             ))
+        if R.shared_bodies:
+            # the program handed a callable to each body slot; every slot must get its own body (the
+            # callable called once per slot, its applications made - and emitted - once per body)
+            kind, k, name, ncalls, nslots = R.shared_bodies[0]
+            what = (f"callable {name!r} was handed to a body slot of a {kind} (slot {k}) but that slot holds a Graph object "
+                    f"another body slot already holds / the callable was called {ncalls} time(s) for {nslots} slot(s) "
+                    f"({len(R.shared_bodies)} such slots): the applications it makes are not made once per body; build verdict {out['verdict']}")
+            out["oracle"].append(("legal-rejected" if out["verdict"] != "ok" else "bodies-merged", what))
         if case.get("public") and ap["graphs"][0]["args"] is not None:
             # the public entry point `spox.build` must come to the same verdict and pass the same oracle
             o3 = L.observe_public(R)
@@ -441,6 +449,12 @@ def gen_cases(ck: core.Check) -> tuple[list[dict], dict]:
     for ln, outer in ((1010, 40),) + (((40, 1010), (1100, None)) if ck.thorough else ()):
         cases.append({"kind": "script", "script": G.long_chain_script(ln, outer), "family": "long-chain"})
     stats["wide_and_long"] = len(cases) - n0
+    # (iv) round 7: one callable object handed to several body slots (4 forms x 6 shapes, three palettes)
+    n0 = len(cases)
+    for d, sc in G.callable_scripts():
+        for _ in range(3):
+            cases.append({"kind": "script", "script": sc, "descr": d, "family": "callable-reuse"})
+    stats["callable_reuse"] = len(cases) - n0
     for i, c in enumerate(cases):
         # operator kinds: every third case keeps the plain constructors, the others draw a palette
         # (bit 3 of a palette: every application draws its own opset module v17..v21)
